@@ -3,6 +3,7 @@ package engine_test
 import (
 	"bufio"
 	"bytes"
+	"encoding/json"
 	"fmt"
 	"os"
 	"path/filepath"
@@ -193,6 +194,14 @@ func TestVerifC13(t *testing.T) {
 						ix := vkit.Pick(r, []string{"ia", "ib"})
 						id := vkit.Pick(r, ids)
 						wasClosed := closeReturned.Load()
+						// now and then a client writes into / reads from the third index, which the
+						// administration goroutines create, fill, compress and drop meanwhile
+						if i%17 == (c*5)%17 {
+							e.VAdd("ic", fmt.Sprintf("c%d_%d", c, i), []float32{r.F32(), r.F32(), r.F32()}, map[string]any{"cat": "x"})
+							e.VSetMetadata("ic", "a", map[string]any{fmt.Sprintf("k%d", c): float64(i)})
+							e.VGet("ic", "b")
+							e.VSearch("ic", []float32{1, 2, 3}, 2, "cat='x'", "", 0, 1.0, nil)
+						}
 						// now and then a client creates an index of its own and puts the first
 						// vector(s) into it while the others (and the admin goroutine) go on:
 						// the index's lazily initialised parts come to life under load
@@ -217,8 +226,19 @@ func TestVerifC13(t *testing.T) {
 								ackedDeletes.Add(1)
 							}
 						case p < 28:
-							e.VGet(ix, id)
-							e.VGetMany(ix, ids)
+							// a client uses what it reads: the records are serialised (as the HTTP
+							// layer does) while other clients go on updating the same ids
+							if d, err := e.VGet(ix, id); err == nil {
+								json.Marshal(d)
+							}
+							if ds, err := e.VGetMany(ix, ids); err == nil {
+								json.Marshal(ds)
+							}
+							if r.Chance(0.3) {
+								if conns, err := e.VGetConnections(ix, id, "r"); err == nil {
+									json.Marshal(conns)
+								}
+							}
 						case p < 40:
 							res, err := e.VSearch(ix, []float32{r.F32(), r.F32(), r.F32()}, 3, "cat='x'", "", 0, 1.0, nil)
 							if err == nil {
